@@ -223,7 +223,7 @@ func (m c02) Run(c *fw.Ctx) {
 		c.Exhaustive(fmt.Sprintf("Universe(L=%d,arity<=3) x i x n{0,1,3} x {Insert,Embed}", L))
 	}
 	// B. seeded larger cases.
-	N := c.Pick(15000, 120000)
+	N := c.Pick(15000, 500000)
 	r := c.Rng
 	for it := 0; it < N; it++ {
 		if !c.NextOwn() {
